@@ -639,7 +639,7 @@ def check_live(run, res):
       continue
     if k == 'clear_trace':
       stale = None
-    if not ob.instrumented or k not in ('start', 'ev', 'rtc', 'circuit'):
+    if not ob.instrumented or k not in ('start', 'restart', 'ev', 'rtc', 'circuit'):
       if ob.live_spy or ob.live_trace:
         res.violate('live-spy' if ob.live_spy else 'live-trace', {'op': 'non-step', 'got': 'more'},
                     'op#%d %s is not a step but lines were handed to the live callbacks: %s %s' % (i, ob.op, ob.live_spy, ob.live_trace))
